@@ -1105,8 +1105,18 @@ static Result execStatic() {
   std::ostringstream os;
   os << decltype(b77)::value << " " << decltype(bm)::value << " " << decltype(f5)::value << " " << decltype(f20)::value << " "
      << decltype(b62)::value << " " << decltype(b4020)::value << " " << decltype(b59)::value;
+  // the documented defaults: comparison style relativeWeak, rounding style towardZero (also of FloatCmpOps)
+  auto styleName = [](FC::CmpStyle c) { return c == FC::relativeWeak ? "relativeWeak" : c == FC::relativeStrong ? "relativeStrong" : c == FC::absolute ? "absolute" : "?"; };
+  auto rstyleName = [](FC::RoundingStyle c) { return c == FC::towardZero ? "towardZero" : c == FC::towardInf ? "towardInf" : c == FC::downward ? "downward" : c == FC::upward ? "upward" : "?"; };
+  os << " " << styleName(FC::defaultCmpStyle) << " " << rstyleName(FC::defaultRoundingStyle) << " " << styleName(Dune::FloatCmpOps<double>::cstyle) << " "
+     << rstyleName(Dune::FloatCmpOps<double>::rstyle);
   res.impl = os.str();
-  if (res.impl != "1 0 120 2432902008176640000 15 137846528820 0") res.oracle = "FAIL integral_constant overloads of factorial / binomial give " + res.impl;
+  bool distinct = FC::relativeWeak != FC::relativeStrong && FC::relativeWeak != FC::absolute && FC::relativeStrong != FC::absolute &&
+                  FC::towardZero != FC::towardInf && FC::towardZero != FC::downward && FC::towardZero != FC::upward &&
+                  FC::towardInf != FC::downward && FC::towardInf != FC::upward && FC::downward != FC::upward;
+  if (res.impl != "1 0 120 2432902008176640000 15 137846528820 0 relativeWeak towardZero relativeWeak towardZero")
+    res.oracle = "FAIL integral_constant overloads of factorial / binomial or the documented default styles: " + res.impl;
+  else if (!distinct) res.oracle = "FAIL style enumerators are not distinct";
   else if (Dune::Factorial<5>::factorial != 120 || Dune::Factorial<0>::factorial != 1) res.oracle = "FAIL Factorial<m>::factorial wrong";
   return res;
 }
